@@ -177,16 +177,31 @@ func newRunner(h History) *runner {
 	return r
 }
 
+// identOf: which identity of a pool of k a login uses (a fixed scrambling of its id: neighbours may or may not agree)
+func identOf(id, k int) int {
+	if k <= 1 {
+		return 0
+	}
+	return int((uint64(id+1)*0x9E3779B97F4A7C15)>>33) % k
+}
+
 func (r *runner) mkLogin(l *HLogin) common.RemoteUserLogin {
 	r.logByID[l.ID] = l
+	// the login's id is carried by the client port (decodeEmitted reads it back from there); account, credential and
+	// address are the login's own, or come from a small pool (History.IdentPool)
+	who, addr := l.ID, fmt.Sprintf("10.0.%d.%d", l.ID/250, l.ID%250)
+	if k := r.h.IdentPool; k > 0 {
+		who = identOf(l.ID, k)
+		addr = fmt.Sprintf("10.9.0.%d", who)
+	}
 	src := auditevent.NewAuditEvent(common.ActionLoginIdentifier,
-		auditevent.EventSource{Type: "IP", Value: fmt.Sprintf("10.0.%d.%d", l.ID/250, l.ID%250), Extra: map[string]any{"port": strconv.Itoa(40000 + l.ID)}},
+		auditevent.EventSource{Type: "IP", Value: addr, Extra: map[string]any{"port": strconv.Itoa(40000 + l.ID)}},
 		auditevent.OutcomeSucceeded,
-		map[string]string{"loggedAs": fmt.Sprintf("user-%d", l.ID), "userID": fmt.Sprintf("cert-%d", l.ID), "pid": strconv.Itoa(l.PID)},
+		map[string]string{"loggedAs": fmt.Sprintf("user-%d", who), "userID": fmt.Sprintf("cert-%d", who), "pid": strconv.Itoa(l.PID)},
 		"sshd").WithTarget(map[string]string{"host": "node", "machine-id": "mid"})
 	src.LoggedAt = r.bounds[l.AtIdx]
 	r.logins[src] = l.ID
-	rul := common.RemoteUserLogin{Source: src, PID: l.PID, CredUserID: fmt.Sprintf("cert-%d", l.ID)}
+	rul := common.RemoteUserLogin{Source: src, PID: l.PID, CredUserID: fmt.Sprintf("cert-%d", who)}
 	switch l.Invalid {
 	case "nosource":
 		rul.Source = nil
@@ -259,9 +274,13 @@ func (r *runner) dump() (stateDump, error) {
 
 func decodeEmitted(m map[string]any, opIdx int) (emitted, error) {
 	e := emitted{LoginID: -1, EventID: -1, OpIdx: opIdx}
-	if subj, ok := m["subjects"].(map[string]any); ok {
-		if s, ok := subj["loggedAs"].(string); ok {
-			fmt.Sscanf(s, "user-%d", &e.LoginID)
+	if src, ok := m["source"].(map[string]any); ok {
+		if ex, ok := src["extra"].(map[string]any); ok {
+			if s, ok := ex["port"].(string); ok {
+				if p, err := strconv.Atoi(s); err == nil && p >= 40000 {
+					e.LoginID = p - 40000
+				}
+			}
 		}
 	}
 	if md, ok := m["metadata"].(map[string]any); ok {
@@ -377,7 +396,11 @@ func describeHang(ctx any, call int, phase string, waited time.Duration) (*Histo
 func seqHangReporter(sum *hutil.Summary, cases *hutil.CaseFile, out string) func(any, int, string, time.Duration) {
 	return func(ctx any, call int, phase string, waited time.Duration) {
 		h, what := describeHang(ctx, call, phase, waited)
-		sum.FailKey("oracle", keyDeadlock, what, map[string]any{"history": h, "detail": map[string]any{"op": call, "phase": phase}})
+		rp := map[string]any{"history": h, "detail": map[string]any{"op": call, "phase": phase}}
+		if h != nil && h.Vol != nil {
+			rp = map[string]any{"volume": h.Vol, "detail": map[string]any{"op": call, "phase": phase, "ops": len(h.Ops)}}
+		}
+		sum.FailKey("oracle", keyDeadlock, what, rp)
 		sum.Notes = append(sum.Notes, "the run was cut short: a correlator call did not return (process poisoned, exploration stopped)")
 		cases.Flush()
 		sum.CaseFiles = cases.Files
@@ -544,6 +567,9 @@ func main() {
 	exhLen := flag.Int("len", 4, "mode exh: maximal history length")
 	exhXLen := flag.Int("xlen", 0, "mode exh: maximal history length of the one-pid scope (0 = len+1)")
 	exhCoq := flag.Int("coq", 1500, "mode exh: at most this many histories are replayed against the Coq model")
+	nVol := flag.Int("vol", 10, "histories of the volume family (large tables, long lifetimes; oracle only)")
+	nVolConc := flag.Int("cvol", 3, "mode conc: further programs that start on a correlator whose tables are already large")
+	volBig := flag.Bool("volbig", false, "volume family: the thorough tier's sizes (tables up to 16384, lifetimes up to 131072)")
 	flag.Parse()
 	seed := hutil.SeedFromEnv()
 	if *replay != "" {
@@ -557,7 +583,7 @@ func main() {
 		if os.Getenv("VERIF_CONC_CHILD") == "" {
 			os.Exit(concParent(*out, *prop, seed))
 		}
-		concMain(*out, *n, seed, *prop)
+		concMain(*out, *n, seed, *prop, *nVolConc, *volBig)
 		return
 	}
 	r := hutil.NewRand(seed ^ hashStr(*prop))
@@ -593,6 +619,7 @@ func main() {
 		if h.Debug {
 			sum.Dist("debug_logging_on")
 		}
+		sum.Dist(fmt.Sprintf("identity_pool_%d", h.IdentPool))
 		if !withCoq {
 			sum.Dist("judged_by_the_oracle_only_(no_Coq_case)")
 		}
@@ -620,10 +647,14 @@ func main() {
 	modes := modesFor(*prop)
 	// serials, timestamps and the records' other fields: from a generator of their own (fields.go)
 	dr := hutil.NewRand(seed ^ hashStr(*prop) ^ hashStr("fields"))
+	// whose identity a login carries: its own, or one of a small pool (generator of its own again)
+	ir := hutil.NewRand(seed ^ hashStr(*prop) ^ hashStr("identities"))
+	identPools := []int{0, 0, 1, 2, 3}
 	for i := 0; i < *n; i++ {
 		m := modes[i%len(modes)]
 		h := genHistory(r, m, *maxSess)
 		h.Serials, h.Stamps = decorate(dr, h.Ops, h.Plans)
+		h.IdentPool = hutil.Pick(ir, identPools)
 		process(m, h, true)
 	}
 	// further families, each from a generator of its own (the histories above stay what they were)
@@ -636,12 +667,53 @@ func main() {
 		for i := 0; i < cnt; i++ {
 			h := fam.gen(fr)
 			h.Serials, h.Stamps = decorate(fr, h.Ops, h.Plans)
+			h.IdentPool = hutil.Pick(ir, identPools)
 			process(fam.name, h, fam.coq)
+		}
+	}
+	// the volume family last (a call that does not return ends the run): large tables, long lifetimes, oracle only
+	vr := hutil.NewRand(seed ^ hashStr(*prop) ^ hashStr("family:volume"))
+	for i := 0; i < *nVol; i++ {
+		v := genVolCase(vr, i, *volBig)
+		h, res, fs := runVolume(*prop, v)
+		if res.Err != "" {
+			sum.Fail("harness", "volume history: "+res.Err, map[string]any{"volume": v})
+			continue
+		}
+		for _, f := range fs {
+			sum.FailKey("oracle", f.key, v.String()+": "+f.what, map[string]any{"volume": v, "detail": f.detail})
+		}
+		sum.Count(fmt.Sprint("volume", v), true)
+		sum.Dist("mode_volume")
+		sum.Dist("judged_by_the_oracle_only_(no_Coq_case)")
+		sum.Dist(fmt.Sprintf("volume_ops_%s", magnitude(len(h.Ops))))
+		sum.Dist(fmt.Sprintf("volume_emitted_%s", magnitude(len(res.Emitted))))
+		for _, d := range []struct {
+			n    string
+			size int
+		}{{"waiting_logins", v.Parked}, {"open_sessions", v.Sessions}, {"held_by_one_session", v.Held}, {"lifetime_swept_held_events", v.Lifetime}, {"lifetime_swept_logins", v.LoginLife}} {
+			if d.size > 0 {
+				sum.Dist(fmt.Sprintf("volume_%s_%s", d.n, magnitude(d.size)))
+			}
 		}
 	}
 	cases.Flush()
 	sum.CaseFiles = cases.Files
 	sum.Write(*out)
+}
+
+func magnitude(n int) string {
+	switch {
+	case n < 100:
+		return "<100"
+	case n < 1000:
+		return "100-999"
+	case n < 10000:
+		return "1000-9999"
+	case n < 100000:
+		return "10000-99999"
+	}
+	return ">=100000"
 }
 
 func hashStr(s string) uint64 {
@@ -701,9 +773,11 @@ func familiesFor(prop string) []family {
 func ruleText(prop string) string {
 	return "histories generated per mode (wf: unique pids/sessions; reuse: chains of sessions sharing a PID; mixed: plus cron/console/su-like sessions and records without session; " +
 		"cleanup: cleanup calls with cut-offs at earlier time boundaries; faults: invalid logins, unparsable PIDs, write budget), 1-6 sessions interleaved in bursts, login at a random split point of its session; " +
+		"logins carry identities of their own or (3 of 5 histories: a pool of 1, 2 or 3) accounts, credentials and client addresses drawn from a small pool, so that different sshd processes - also successive ones of a re-used pid - log in with equal credentials from the same address; only the client port and the log time tell such logins apart; " +
 		"every record carries a kernel serial (per history: all zero, increasing, all equal, decreasing, wrapping through 2^32, late lower-numbered records, arbitrary), a timestamp of its own (2023, around / before / after the wall clock, descending) and the other fields the coalescer delivers (old-ses, old-auid, auid, tty, terminal, ppid, exe, addr, acct) with values naming OTHER sessions, pids and users of the history - none of which the properties mention; " +
 		"family relogin (C16): a pid logs in 2-3 times before its LOGIN record, cleanup cut-offs between the log times of an earlier and the last login (the last must stay waiting; its session is correlated); " +
 		"family overtake (C09): chains of sessions opened by one re-used pid, the new login anywhere after the previous login and LOGIN record - before, between and after the ended session's last records; " +
+		"family volume (oracle only): thousands to 10^5 operations - cron-like sessions with held events and unclaimed logins thrown away by the sweeps round after round (lifetime), then hundreds to thousands of logins waiting / login-less sessions open / events held by one session at the same time (sizes around powers of two and ten), ordinary probe sessions completed all along, an ordinary small history and the other halves of some waiting entries at the end; " +
 		"family pending: 2-4 sessions waiting for their logins at the same time, each holding 0-12 events (pending-big: up to 40 and the sizes at which a slice grows; judged by the oracle only), opened in any order, filled in turns or one after the other, logins in any order; " +
 		"every call is followed by a dump of the correlator state (per-step simulation against the model) and the " + prop + " oracle runs on the emitted events; " +
 		"non-trivial = at least 2 sessions open at once and at least one hold-queue flush; distinct by op sequence"
@@ -764,6 +838,7 @@ func doReplay(path, prop string) int {
 		Replay   struct {
 			History *History  `json:"history"`
 			Conc    *concCase `json:"conc"`
+			Volume  *VolCase  `json:"volume"`
 		} `json:"replay"`
 	}
 	if err := json.Unmarshal(raw, &rp); err != nil {
@@ -778,6 +853,31 @@ func doReplay(path, prop string) int {
 			return replayConcParent()
 		}
 		return replayConc(*rp.Replay.Conc, prop)
+	}
+	if v := rp.Replay.Volume; v != nil {
+		// a volume history: regenerated from its description, run once more under the same watchdog and oracles
+		seqWatchdog = hutil.NewWatchdog(func(ctx any, call int, phase string, waited time.Duration) {
+			_, what := describeHang(ctx, call, phase, waited)
+			fmt.Printf("REPRODUCED %s: %s: %s\n", keyDeadlock, v.String(), what)
+			os.Exit(1)
+		})
+		for k := 1; k <= 5; k++ {
+			_, res, fs := runVolume(prop, *v)
+			if res.Err != "" {
+				fmt.Println("harness error:", res.Err)
+				return 2
+			}
+			for i, f := range fs {
+				if i < 5 {
+					fmt.Printf("REPRODUCED %s (run %d): %s: %s\n", f.key, k, v.String(), f.what)
+				}
+			}
+			if len(fs) > 0 {
+				return 1
+			}
+		}
+		fmt.Println("not reproduced in 5 runs")
+		return 0
 	}
 	if rp.Replay.History == nil {
 		fmt.Println("replay file carries no history (no failing input was found)")
